@@ -560,6 +560,59 @@ def unregistered_objects(ctx, tmp):
             attempt("%s over Command objects one of which was removed from program.commands %s" % (cmd, "between two runs" if between else "before the first run"), desc, steps)
 
 
+def eems2_result_names(ctx, tmp):
+    """EEMS 2.0 command files (commands without `Result =`) whose result name comes from a NewFieldName - or, where that is absent, InFieldName - of every
+    kind a command file can write: lists, nested lists, key:value tuples, numbers, empty lists and texts, words; in a file of that one command, after
+    well-formed commands, and next to a command the name collides with.  Real bodies of the CSV libraries, through Program.from_source + run() and through
+    the tool in-process: only SyntaxError or MPilot errors, and the tool reports the MPilot errors"""
+    import contextlib, io
+    from mpilot.exceptions import MPilotError
+    from mpilot.program import Program, EEMS_CSV_LIBRARIES
+    import mpilot.cli.mpilot as cli_mod
+    open(os.path.join(tmp, "data2.csv"), "w").write("a,b\n1,4\n2,5\n3,6\n")
+    values = ["[a]", "[a, b]", "[[a]]", "[[a], b]", "[DisplayName: a]", "[k: a, j: b]", "[1]", "[1, 2.5]", "[]", '""', '"a b"', "2020", "-1", "0", "0.0", "2.5", "1e3", "True", '["a"]', '[k: [a]]', "a"]
+    head = "READ(InFileName = data2.csv, InFieldName = a)\nREAD(InFileName = data2.csv, InFieldName = b)\n"
+    shapes = [
+        ("READ.InFieldName", "", "READ(InFileName = data2.csv, InFieldName = %s)\n"),
+        ("READ.NewFieldName", "", "READ(InFileName = data2.csv, InFieldName = a, NewFieldName = %s)\n"),
+        ("SUM.NewFieldName", head, "SUM(InFieldNames = [a, b], NewFieldName = %s)\n"),
+        ("CVTTOFUZZY.InFieldName", head, "CVTTOFUZZY(InFieldName = %s, TrueThreshold = 3, FalseThreshold = 1)\n"),
+        ("CVTTOFUZZY.both", head, "CVTTOFUZZY(\n    InFieldName = %s,\n    NewFieldName = %s,\n    TrueThreshold = 3, FalseThreshold = 1)\n"),
+        ("COPY.NewFieldName-mixed", head + "c = Copy(InFieldName = a)\n", "COPY(InFieldName = b, NewFieldName = %s)\nd = Copy(InFieldName = c)\n"),
+        ("MPilot-name.InFieldName", head, "Copy(InFieldName = %s)\n"),
+    ]
+    path = os.path.join(tmp, "model_v2.eem")
+    k = 0
+    for tag, pre, shape in shapes:
+        for v in values:
+            k += 1
+            if not ctx.thorough and not (v in ("[a]", "[DisplayName: a]", "[[a], b]", "2020") or (k % 3 == 0)):
+                continue
+            src = pre + (shape % ((v,) * shape.count("%s")))
+            exc = None
+            try:
+                with contextlib.redirect_stdout(io.StringIO()):
+                    Program.from_source(src, libraries=EEMS_CSV_LIBRARIES, working_dir=tmp).run()
+                out = "ok"
+            except BaseException as e:
+                out, exc = progrun.classify(e), e
+            with open(path, "w") as f:
+                f.write(src)
+            code, err, crash = clicorr._invoke(cli_mod.main, ["eems-csv", path])
+            ctx.case("eems2-result-name " + src, sample={"kind": "eems2-result-name:" + tag, "source": src[-200:], "impl": out, "exit": code, "escaped": crash})
+            ctx.count("eems2_result_name:" + out.split(":")[0])
+            desc = {"source": src, "outcome": out, "tool_exit": code, "tool_escaped": crash, "tool_stderr": err[-400:]}
+            if not boundary_ok(out):
+                ctx.fail("EEMS 2.0 command file whose result name is given as %s (%s): %s escaped from from_source()/run()" % (v, tag, out), desc)
+            if crash != "-":
+                ctx.fail("EEMS 2.0 command file whose result name is given as %s (%s): the command-line tool died with %s" % (v, tag, crash), desc)
+            elif isinstance(exc, MPilotError) and (code == 0 or str(exc) not in err):
+                ctx.fail("EEMS 2.0 command file whose result name is given as %s (%s): fails with %s, the tool %s" % (
+                    v, tag, type(exc).__name__, "exited 0" if code == 0 else "did not print its message to standard error"), desc)
+    for f in ("model_v2.eem", "data2.csv"):
+        os.remove(os.path.join(tmp, f))
+
+
 def run(ctx):
     ctx.check_proofs(["MPilot.Props.C13", "MPilot.Props.C13Cli", "MPilot.Props.C13Err", "MPilot.Props.C13Run", "MPilot.Props.C13End"])
     model = common.Model()
@@ -631,6 +684,7 @@ def run(ctx):
     every_error_class(ctx, tmp)
     cli_other_routes(ctx, tmp)
     unregistered_objects(ctx, tmp)
+    eems2_result_names(ctx, tmp)
     clicorr.formatting(ctx, model, ctx.budget(60, 3000), reports=True)         # the tool's reporting against Model/Cli (Props/C13Cli.lean)
     return ctx.finish(
         rule="(a) every command x parameter x raw kinds (numbers, booleans, strings incl. non-ASCII/backslash/quote, names of results of every kind, "
